@@ -536,16 +536,146 @@ theorem findUnmatched_spec (reqs accs : List String) (r : String) :
     r ∈ findUnmatchedReqAttrs reqs accs ↔ r ∈ reqs ∧ ¬ ∃ a ∈ accs, isReqAttrMatch r a = true := by
   simp [findUnmatchedReqAttrs, hasReqAttrMatch]
 
-/-- The account may act ⇔ every required attribute has a match. -/
-theorem acctHasReqAttrs_iff (reqs accs : List String) :
-    acctHasReqAttrs reqs accs = true ↔ AttrsOk reqs accs := by
-  unfold acctHasReqAttrs AttrsOk
+/-- The account may act ⇔ every required attribute has a match by the code's matcher (any
+strings, valid names or not). -/
+theorem acctHasReqAttrs_iff_matched (reqs accs : List String) :
+    acctHasReqAttrs reqs accs = true ↔ AttrsMatched reqs accs := by
+  unfold acctHasReqAttrs AttrsMatched
   by_cases h : reqs = []
   · subst h; simp
   · have : reqs.isEmpty = false := by cases reqs <;> simp_all
     simp only [this, Bool.false_eq_true, if_false, List.isEmpty_iff, findUnmatchedReqAttrs,
       hasReqAttrMatch, List.filter_eq_nil_iff, Bool.not_eq_true', Bool.not_eq_false,
       List.any_eq_true]
+
+/-- `IsReqAttrMatch` on character lists is the documented rule on segments: for a valid
+required attribute and a valid name, `*.b` matches exactly the names with one or more extra
+leading levels before the segments of `b`; anything else matches only itself. -/
+theorem isReqAttrMatchL_iff_doc {rl al : List Char}
+    (hr : if ['*', '.'].isPrefixOf rl = true then SegsOk (splitDots (rl.drop 2)) else SegsOk (splitDots rl))
+    (ha : SegsOk (splitDots al)) :
+    isReqAttrMatchL rl al = true ↔
+      if ['*', '.'].isPrefixOf rl = true then WildcardMatch (splitDots (rl.drop 2)) (splitDots al)
+      else rl = al := by
+  by_cases hw : ['*', '.'].isPrefixOf rl = true
+  · simp only [hw, if_true] at hr ⊢
+    obtain ⟨t, rfl⟩ := List.isPrefixOf_iff_prefix.1 hw
+    simp only [List.cons_append, List.nil_append, List.drop_succ_cons, List.drop_zero] at hr ⊢
+    have h := reqAttr_wildcard_spec hr ha
+    rw [joinDots_splitDots, joinDots_splitDots] at h
+    exact h
+  · have hw' : ['*', '.'].isPrefixOf rl = false := Bool.eq_false_iff.2 hw
+    simp only [hw', Bool.false_eq_true, if_false] at hr ⊢
+    rw [reqAttr_exact hw']
+    constructor
+    · exact fun h => h.2
+    · intro h
+      refine ⟨?_, h⟩
+      rintro rfl
+      exact (hr.2 [] (by simp [splitDots])).1 rfl
+
+/-- **The code's matcher is the documented match** (`DocMatch`, stated on segments without
+reference to `IsReqAttrMatch`): for every exact required attribute and every string, and for
+every valid wildcard attribute and valid name. -/
+theorem isReqAttrMatch_iff_doc {r a : String} (hg : MatchGuard r a) :
+    isReqAttrMatch r a = true ↔ DocMatch r a := by
+  unfold isReqAttrMatch DocMatch
+  by_cases hw : isWild r = true
+  · obtain ⟨hr, ha⟩ := hg hw
+    unfold ReqOk at hr
+    simp only [hw, if_true] at hr ⊢
+    unfold isWild at hw
+    have := isReqAttrMatchL_iff_doc (rl := r.toList) (al := a.toList) (by simp only [hw, if_true]; exact hr) ha
+    simpa only [hw, if_true] using this
+  · have hw' : isWild r = false := Bool.eq_false_iff.2 hw
+    simp only [hw', Bool.false_eq_true, if_false]
+    unfold isWild at hw'
+    rw [reqAttr_exact hw', String.toList_inj]
+    constructor
+    · rintro ⟨h1, h2⟩
+      exact ⟨fun e => h1 (by rw [e]; rfl), h2⟩
+    · rintro ⟨h1, h2⟩
+      exact ⟨fun e => h1 (String.toList_inj.1 (by rw [e]; rfl)), h2⟩
+
+theorem attrsMatched_iff_doc {reqs accs : List String} (hn : PairsOk reqs accs) :
+    AttrsMatched reqs accs ↔ AttrsOk reqs accs := by
+  unfold AttrsMatched AttrsOk
+  constructor
+  · intro h r hr
+    obtain ⟨a, ha, hm⟩ := h r hr
+    exact ⟨a, ha, (isReqAttrMatch_iff_doc (hn r hr a ha)).1 hm⟩
+  · intro h r hr
+    obtain ⟨a, ha, hm⟩ := h r hr
+    exact ⟨a, ha, (isReqAttrMatch_iff_doc (hn r hr a ha)).2 hm⟩
+
+/-- **`FindUnmatchedReqAttrs` returns exactly the list of required attributes without a
+documented match — same order, same multiplicities** (`docUnmatched` is what the checker
+compares the implementation's list with). -/
+theorem findUnmatched_eq_doc {reqs accs : List String} (hn : PairsOk reqs accs) :
+    findUnmatchedReqAttrs reqs accs = docUnmatched reqs accs := by
+  unfold findUnmatchedReqAttrs docUnmatched
+  apply List.filter_congr
+  intro r hr
+  have : hasReqAttrMatch r accs = true ↔ ∃ a ∈ accs, DocMatch r a := by
+    unfold hasReqAttrMatch
+    rw [List.any_eq_true]
+    constructor
+    · rintro ⟨a, ha, hm⟩; exact ⟨a, ha, (isReqAttrMatch_iff_doc (hn r hr a ha)).1 hm⟩
+    · rintro ⟨a, ha, hm⟩; exact ⟨a, ha, (isReqAttrMatch_iff_doc (hn r hr a ha)).2 hm⟩
+  by_cases h : hasReqAttrMatch r accs = true
+  · simp [h, this.1 h]
+  · have h' : hasReqAttrMatch r accs = false := Bool.eq_false_iff.2 h
+    simp only [h', Bool.not_false, true_eq_decide_iff]
+    exact fun x => h (this.2 x)
+
+/-- **The account may act ⇔ every required attribute has a documented match** among the
+account's attributes (`AttrsOk` is stated with `DocMatch`, not with the code's matcher). -/
+theorem acctHasReqAttrs_iff {reqs accs : List String} (hn : PairsOk reqs accs) :
+    acctHasReqAttrs reqs accs = true ↔ AttrsOk reqs accs :=
+  (acctHasReqAttrs_iff_matched reqs accs).trans (attrsMatched_iff_doc hn)
+
+/-! ### `NormalizeName` -/
+
+/-- The segments of a normalised name are the segments of the name, each trimmed and
+lower-cased (no segment is created, merged or lost). -/
+theorem normalizeName_segments (s : String) :
+    splitDots (normalizeName s).toList =
+      (splitDots s.toList).map fun seg => (trimSpaces seg).map Char.toLower := by
+  unfold normalizeName
+  rw [String.toList_ofList]
+  exact splitDots_normalizeNameL s.toList
+
+/-- **`NormalizeName` is idempotent**: a stored (normalised) name is a fixed point. -/
+theorem normalizeName_idempotent (s : String) : normalizeName (normalizeName s) = normalizeName s := by
+  unfold normalizeName
+  rw [String.toList_ofList, normalizeNameL_idem]
+
+/-- **`SegsOk`-closure**: the normalised name is a valid name exactly when no segment of the
+given name is blank; in particular a valid name with no blank segment stays valid. -/
+theorem normalizeName_nameOk_iff (s : String) :
+    NameOk (normalizeName s) ↔ ∀ seg ∈ splitDots s.toList, trimSpaces seg ≠ [] := by
+  unfold NameOk SegsOk
+  rw [normalizeName_segments]
+  constructor
+  · rintro ⟨_, h⟩ seg hseg he
+    have := (h _ (List.mem_map.2 ⟨seg, hseg, rfl⟩)).1
+    simp only [he, List.map_nil, ne_eq, not_true_eq_false] at this
+  · intro h
+    refine ⟨by simpa using splitDots_ne_nil s.toList, ?_⟩
+    intro seg hseg
+    obtain ⟨t, ht, rfl⟩ := List.mem_map.1 hseg
+    refine ⟨by simpa using h t ht, ?_⟩
+    exact normSeg_dotfree (splitDots_dotfree_segs s.toList t ht)
+
+/-- **Required attributes as requested**: for the list a market asked for, stored normalised,
+the account may act ⇔ every requested attribute, normalised, has a documented match. -/
+theorem acctHasReqAttrs_normalised_iff {reqs accs : List String}
+    (hr : ∀ r ∈ reqs, ReqOk (normalizeName r)) (ha : ∀ a ∈ accs, NameOk a) :
+    acctHasReqAttrs (reqs.map normalizeName) accs = true ↔
+      ∀ r ∈ reqs, ∃ a ∈ accs, DocMatch (normalizeName r) a := by
+  rw [acctHasReqAttrs_iff (NamesOk.pairsOk ⟨by simpa using hr, ha⟩)]
+  unfold AttrsOk
+  simp
 
 /-! ### Funds -/
 
@@ -592,7 +722,8 @@ seller carries every required attribute, the creation fee and the seller settlem
 each cover an option (or none is defined), the price covers the fees taken out of it, and
 the seller has the funds. -/
 theorem createAsk_admits_iff {mk : Option Market} {attrs : List String} {bal : Coins} {m : AskMsg}
-    (hw : ∀ mkt, mk = some mkt → MarketAskWf mkt m) :
+    (hw : ∀ mkt, mk = some mkt → MarketAskWf mkt m)
+    (hn : ∀ mkt, mk = some mkt → PairsOk mkt.reqAsk attrs) :
     createAsk mk attrs bal m = .ok () ↔
       m.valid = true ∧ AskAdmissible mk attrs m ∧ FundsOk bal m.cfee m.holdAmount := by
   unfold createAsk AskAdmissible
@@ -611,9 +742,9 @@ theorem createAsk_admits_iff {mk : Option Market} {attrs : List String} {bal : C
     simp only [hacc, if_true, true_and]
     by_cases hat : acctHasReqAttrs mkt.reqAsk attrs = true
     swap
-    · have := (acctHasReqAttrs_iff mkt.reqAsk attrs).not.1 hat
+    · have := (acctHasReqAttrs_iff (hn mkt rfl)).not.1 hat
       simp [hat, this]
-    have hat' := (acctHasReqAttrs_iff mkt.reqAsk attrs).1 hat
+    have hat' := (acctHasReqAttrs_iff (hn mkt rfl)).1 hat
     simp only [hat, Bool.not_true, Bool.false_eq_true, if_false, hat', true_and]
     have h1 := flatFee_accepts_iff_spec hmw.hcflat m.cfee
     have h2 := flatFee_accepts_iff_spec hmw.hsflat m.sflat
@@ -657,7 +788,8 @@ theorem coinsValid_nodup : ∀ {cs : List Coin}, coinsValid cs = true → (cs.ma
 required attribute, the creation fee covers an option, the buyer settlement fees cover a flat
 option plus a ratio option (different denoms or summed in one), and the buyer has the funds. -/
 theorem createBid_admits_iff {mk : Option Market} {attrs : List String} {bal : Coins} {m : BidMsg}
-    (hw : ∀ mkt, mk = some mkt → MarketBidWf mkt m.price) :
+    (hw : ∀ mkt, mk = some mkt → MarketBidWf mkt m.price)
+    (hn : ∀ mkt, mk = some mkt → PairsOk mkt.reqBid attrs) :
     createBid mk attrs bal m = .ok () ↔
       m.valid = true ∧ BidAdmissible mk attrs m ∧ FundsOk bal m.cfee m.holdAmount := by
   unfold createBid BidAdmissible
@@ -676,9 +808,9 @@ theorem createBid_admits_iff {mk : Option Market} {attrs : List String} {bal : C
     simp only [hacc, if_true, true_and]
     by_cases hat : acctHasReqAttrs mkt.reqBid attrs = true
     swap
-    · have := (acctHasReqAttrs_iff mkt.reqBid attrs).not.1 hat
+    · have := (acctHasReqAttrs_iff (hn mkt rfl)).not.1 hat
       simp [hat, this]
-    have hat' := (acctHasReqAttrs_iff mkt.reqBid attrs).1 hat
+    have hat' := (acctHasReqAttrs_iff (hn mkt rfl)).1 hat
     simp only [hat, Bool.not_true, Bool.false_eq_true, if_false, hat', true_and]
     have hfees : (m.fees.map (·.1)).Nodup := by
       unfold BidMsg.valid at hv
@@ -699,7 +831,8 @@ option, and the account has the fee and the amount.  `s` is whatever is stored u
 market id — the statement holds for ids that are not markets too (then nothing is accepted,
 whatever flags, fee options or attribute lists were written under the id). -/
 theorem commitFunds_admits_iff {s : MStore} {attrs : List String} {bal : Coins} {m : CommitMsg}
-    (hw : s.known = true → (s.m.createCommitFlat.map (·.1)).Nodup) :
+    (hw : s.known = true → (s.m.createCommitFlat.map (·.1)).Nodup)
+    (hn : s.known = true → PairsOk s.m.reqCommit attrs) :
     commitFunds s attrs bal m = .ok () ↔
       m.valid = true ∧ CommitAdmissible s.view attrs m ∧ FundsOk bal m.cfee m.amount := by
   unfold commitFunds CommitAdmissible FundsOk covers MStore.view
@@ -716,7 +849,7 @@ theorem commitFunds_admits_iff {s : MStore} {attrs : List String} {bal : Coins} 
   | true =>
     have h1 := flatFee_accepts_iff_spec (hw hk) m.cfee
     simp only [if_true, validateMarketIsAcceptingCommitments, Option.some.injEq, exists_eq_left']
-    rw [← h1, ← acctHasReqAttrs_iff]
+    rw [← h1, ← acctHasReqAttrs_iff (hn hk)]
     rcases flatFee_refusal_is_fee s.m.createCommitFlat m.cfee with a | a
     swap
     · simp [a]
@@ -737,7 +870,8 @@ theorem commitFunds_admits_iff {s : MStore} {attrs : List String} {bal : Coins} 
 user settlement, the filler carries the create-ask attributes, and the ask creation fee and
 seller settlement flat fee each cover an option. -/
 theorem fillBidsGate_iff {mk : Option Market} {attrs : List String} {cfee sflat : Option Coin}
-    (hw : ∀ mkt, mk = some mkt → (mkt.createAskFlat.map (·.1)).Nodup ∧ (mkt.sellerFlat.map (·.1)).Nodup) :
+    (hw : ∀ mkt, mk = some mkt → (mkt.createAskFlat.map (·.1)).Nodup ∧ (mkt.sellerFlat.map (·.1)).Nodup)
+    (hn : ∀ mkt, mk = some mkt → PairsOk mkt.reqAsk attrs) :
     fillBidsGate mk attrs cfee sflat = .ok () ↔
       fillBidsValid cfee sflat = true ∧ FillBidsAdmissible mk attrs cfee sflat := by
   unfold fillBidsGate FillBidsAdmissible validateAcceptingOrdersAndCanUserSettle
@@ -752,7 +886,7 @@ theorem fillBidsGate_iff {mk : Option Market} {attrs : List String} {cfee sflat 
     obtain ⟨hn1, hn2⟩ := hw mkt rfl
     simp only [Option.some.injEq, exists_eq_left']
     rw [← flatFee_accepts_iff_spec hn1 cfee, ← flatFee_accepts_iff_spec hn2 sflat,
-      ← acctHasReqAttrs_iff]
+      ← acctHasReqAttrs_iff (hn mkt rfl)]
     unfold validateCreateAskFees
     rcases flatFee_refusal_is_fee mkt.createAskFlat cfee with a | a <;>
     rcases flatFee_refusal_is_fee mkt.sellerFlat sflat with b | b <;>
@@ -763,7 +897,8 @@ theorem fillBidsGate_iff {mk : Option Market} {attrs : List String} {cfee sflat 
 create-bid attributes, bid creation fee, and buyer settlement fees for the total price. -/
 theorem fillAsksGate_iff {mk : Option Market} {attrs : List String} {cfee : Option Coin}
     {tp : Coin} {fees : List Coin}
-    (hw : ∀ mkt, mk = some mkt → MarketBidWf mkt tp) :
+    (hw : ∀ mkt, mk = some mkt → MarketBidWf mkt tp)
+    (hn : ∀ mkt, mk = some mkt → PairsOk mkt.reqBid attrs) :
     fillAsksGate mk attrs cfee tp fees = .ok () ↔
       fillAsksValid cfee tp fees = true ∧ FillAsksAdmissible mk attrs cfee tp fees := by
   unfold fillAsksGate FillAsksAdmissible validateAcceptingOrdersAndCanUserSettle
@@ -782,7 +917,7 @@ theorem fillAsksGate_iff {mk : Option Market} {attrs : List String} {cfee : Opti
     have hmw := hw mkt rfl
     simp only [Option.some.injEq, exists_eq_left']
     rw [← flatFee_accepts_iff_spec hmw.hcflat cfee, ← buyerFee_accepts_iff_spec hmw.hbuyer hfees,
-      ← acctHasReqAttrs_iff]
+      ← acctHasReqAttrs_iff (hn mkt rfl)]
     unfold validateCreateBidFees
     rcases flatFee_refusal_is_fee mkt.createBidFlat cfee with a | a <;>
     rcases buyerFee_no_panic hmw.hbuyer fees with b | b <;>
@@ -811,7 +946,8 @@ def AskRefusalReason (mk : Option Market) (attrs : List String) (bal : Coins) (m
 /-- **Every refusal of an ask names a condition that fails** (and inside the guards an ask is
 never refused by a panic or for a reason that does not apply to asks). -/
 theorem createAsk_refusal_reason {mk : Option Market} {attrs : List String} {bal : Coins} {m : AskMsg}
-    (hw : ∀ mkt, mk = some mkt → MarketAskWf mkt m) {e : Rej}
+    (hw : ∀ mkt, mk = some mkt → MarketAskWf mkt m)
+    (hn : ∀ mkt, mk = some mkt → PairsOk mkt.reqAsk attrs) {e : Rej}
     (h : createAsk mk attrs bal m = .error e) : AskRefusalReason mk attrs bal m e := by
   unfold createAsk at h
   by_cases hv : m.valid = true
@@ -837,7 +973,7 @@ theorem createAsk_refusal_reason {mk : Option Market} {attrs : List String} {bal
     swap
     · have hat' : acctHasReqAttrs mkt.reqAsk attrs = false := by simpa using hat
       simp only [hat', Bool.not_false, if_true, Except.error.injEq] at h
-      subst h; exact ⟨mkt, rfl, (acctHasReqAttrs_iff _ _).not.1 hat⟩
+      subst h; exact ⟨mkt, rfl, (acctHasReqAttrs_iff (hn mkt rfl)).not.1 hat⟩
     simp only [hat, Bool.not_true, Bool.false_eq_true, if_false] at h
     have h1 := flatFee_accepts_iff_spec hmw.hcflat m.cfee
     have h2 := flatFee_accepts_iff_spec hmw.hsflat m.sflat
@@ -870,6 +1006,342 @@ theorem createAsk_refusal_reason {mk : Option Market} {attrs : List String} {bal
     subst he
     intro hh
     rw [h4.2 hh] at h; cases h
+
+/-- what a refusal class says about a bid -/
+def BidRefusalReason (mk : Option Market) (attrs : List String) (bal : Coins) (m : BidMsg) : Rej → Prop
+  | .invalid => m.valid = false
+  | .market => mk = none
+  | .closed => ∃ mkt, mk = some mkt ∧ mkt.acceptingOrders = false
+  | .attr => ∃ mkt, mk = some mkt ∧ ¬ AttrsOk mkt.reqBid attrs
+  | .fee => ∃ mkt, mk = some mkt ∧
+      ¬ (FlatFeeOk mkt.createBidFlat m.cfee ∧ BuyerFeeOk mkt.buyerFlat mkt.buyerRatios m.price m.fees)
+  | .funds => ¬ FundsOk bal m.cfee m.holdAmount
+  | .price => False
+  | .usersettle => False
+  | .overflow => False
+
+/-- **Every refusal of a bid names a condition that fails**; inside the guards a bid is never
+refused by a panic, nor with a class that does not apply to bids. -/
+theorem createBid_refusal_reason {mk : Option Market} {attrs : List String} {bal : Coins} {m : BidMsg}
+    (hw : ∀ mkt, mk = some mkt → MarketBidWf mkt m.price)
+    (hn : ∀ mkt, mk = some mkt → PairsOk mkt.reqBid attrs) {e : Rej}
+    (h : createBid mk attrs bal m = .error e) : BidRefusalReason mk attrs bal m e := by
+  unfold createBid at h
+  by_cases hv : m.valid = true
+  swap
+  · have hv' : m.valid = false := by simpa using hv
+    simp only [hv', Bool.not_false, if_true, Except.error.injEq] at h
+    subst h; exact hv'
+  simp only [hv, Bool.not_true, Bool.false_eq_true, if_false] at h
+  cases mk with
+  | none =>
+    simp only [validateMarketIsAcceptingOrders, Except.error.injEq] at h
+    subst h; rfl
+  | some mkt =>
+    have hmw := hw mkt rfl
+    simp only [validateMarketIsAcceptingOrders] at h
+    by_cases hacc : mkt.acceptingOrders = true
+    swap
+    · have hacc' : mkt.acceptingOrders = false := by simpa using hacc
+      simp only [hacc', Bool.false_eq_true, if_false, Except.error.injEq] at h
+      subst h; exact ⟨mkt, rfl, hacc'⟩
+    simp only [hacc, if_true] at h
+    by_cases hat : acctHasReqAttrs mkt.reqBid attrs = true
+    swap
+    · have hat' : acctHasReqAttrs mkt.reqBid attrs = false := by simpa using hat
+      simp only [hat', Bool.not_false, if_true, Except.error.injEq] at h
+      subst h; exact ⟨mkt, rfl, (acctHasReqAttrs_iff (hn mkt rfl)).not.1 hat⟩
+    simp only [hat, Bool.not_true, Bool.false_eq_true, if_false] at h
+    have hfees : (m.fees.map (·.1)).Nodup := by
+      unfold BidMsg.valid at hv
+      simp only [Bool.and_eq_true] at hv
+      exact coinsValid_nodup hv.2
+    have h1 := flatFee_accepts_iff_spec hmw.hcflat m.cfee
+    have h2 := buyerFee_accepts_iff_spec hmw.hbuyer hfees
+    have h4 := collectThenHold_iff bal m.cfee m.holdAmount
+    unfold validateCreateBidFees at h
+    rcases flatFee_refusal_is_fee mkt.createBidFlat m.cfee with a | a
+    swap
+    · simp only [a, Except.error.injEq] at h
+      subst h
+      refine ⟨mkt, rfl, fun hh => ?_⟩
+      rw [h1.2 hh.1] at a; cases a
+    rcases buyerFee_no_panic hmw.hbuyer m.fees with b | b
+    swap
+    · simp only [a, b, Except.error.injEq] at h
+      subst h
+      refine ⟨mkt, rfl, fun hh => ?_⟩
+      rw [h2.2 hh.2] at b; cases b
+    simp only [a, b] at h
+    have he := collectThenHold_error h
+    subst he
+    intro hh
+    rw [h4.2 hh] at h; cases h
+
+/-- what a refusal class says about a commitment (`s` = what is stored under the id; the
+creation fee is checked and collected before the market is looked at) -/
+def CommitRefusalReason (s : MStore) (attrs : List String) (bal : Coins) (m : CommitMsg) : Rej → Prop
+  | .invalid => m.valid = false
+  | .fee => ¬ FlatFeeOk s.m.createCommitFlat m.cfee
+  | .funds => ¬ FundsOk bal m.cfee m.amount
+  | .market => s.known = false
+  | .closed => s.known = true ∧ s.m.acceptingCommitments = false
+  | .attr => s.known = true ∧ ¬ AttrsOk s.m.reqCommit attrs
+  | .price => False
+  | .usersettle => False
+  | .overflow => False
+
+/-- the creation fee as a coin list -/
+def feeCoinsOf (fee : Option Coin) : Coins := match fee with | some c => [c] | none => []
+
+theorem commitFunds_eq (s : MStore) (attrs : List String) (bal : Coins) (m : CommitMsg) :
+    commitFunds s attrs bal m =
+      if !m.valid then .error .invalid else
+      match validateFlatFee s.m.createCommitFlat m.cfee with
+      | .error e => .error e
+      | .ok _ =>
+        if !covers bal (feeCoinsOf m.cfee) then .error .funds else
+        match validateMarketIsAcceptingCommitments s.view with
+        | .error e => .error e
+        | .ok mkt =>
+          if !acctHasReqAttrs mkt.reqCommit attrs then .error .attr
+          else if !covers (Coins.sub bal (feeCoinsOf m.cfee)) m.amount then .error .funds
+          else .ok () := rfl
+
+theorem fundsOk_eq (bal : Coins) (fee : Option Coin) (hold : Coins) :
+    FundsOk bal fee hold ↔
+      covers bal (feeCoinsOf fee) = true ∧ covers (Coins.sub bal (feeCoinsOf fee)) hold = true := Iff.rfl
+
+/-- **Every refusal of a commitment names a condition that fails**, and `CommitFunds` never
+panics (no 256-bit guard is needed: no fee arithmetic on this path). -/
+theorem commitFunds_refusal_reason {s : MStore} {attrs : List String} {bal : Coins} {m : CommitMsg}
+    (hw : (s.m.createCommitFlat.map (·.1)).Nodup)
+    (hn : s.known = true → PairsOk s.m.reqCommit attrs) {e : Rej}
+    (h : commitFunds s attrs bal m = .error e) : CommitRefusalReason s attrs bal m e := by
+  rw [commitFunds_eq] at h
+  have hF := fundsOk_eq bal m.cfee m.amount
+  generalize feeCoinsOf m.cfee = fc at h hF
+  by_cases hv : m.valid = true
+  swap
+  · have hv' : m.valid = false := by simpa using hv
+    simp only [hv', Bool.not_false, if_true, Except.error.injEq] at h
+    subst h; exact hv'
+  simp only [hv, Bool.not_true, Bool.false_eq_true, if_false] at h
+  have h1 := flatFee_accepts_iff_spec hw m.cfee
+  rcases flatFee_refusal_is_fee s.m.createCommitFlat m.cfee with a | a
+  swap
+  · simp only [a, Except.error.injEq] at h
+    subst h
+    intro hh; rw [h1.2 hh] at a; cases a
+  simp only [a] at h
+  by_cases hc1 : covers bal fc = true
+  swap
+  · have hc1' : covers bal fc = false := by simpa using hc1
+    simp only [hc1', Bool.not_false, if_true, Except.error.injEq] at h
+    subst h
+    intro hh; exact hc1 (hF.1 hh).1
+  simp only [hc1, Bool.not_true, Bool.false_eq_true, if_false] at h
+  unfold MStore.view validateMarketIsAcceptingCommitments at h
+  cases hk : s.known with
+  | false =>
+    simp only [hk, Bool.false_eq_true, if_false, Except.error.injEq] at h
+    subst h; exact hk
+  | true =>
+    simp only [hk, if_true] at h
+    by_cases hacc : s.m.acceptingCommitments = true
+    swap
+    · have hacc' : s.m.acceptingCommitments = false := by simpa using hacc
+      simp only [hacc', Bool.false_eq_true, if_false, Except.error.injEq] at h
+      subst h; exact ⟨hk, hacc'⟩
+    simp only [hacc, if_true] at h
+    by_cases hat : acctHasReqAttrs s.m.reqCommit attrs = true
+    swap
+    · have hat' : acctHasReqAttrs s.m.reqCommit attrs = false := by simpa using hat
+      simp only [hat', Bool.not_false, if_true, Except.error.injEq] at h
+      subst h; exact ⟨hk, (acctHasReqAttrs_iff (hn hk)).not.1 hat⟩
+    simp only [hat, Bool.not_true, Bool.false_eq_true, if_false] at h
+    by_cases hc2 : covers (Coins.sub bal fc) m.amount = true
+    swap
+    · have hc2' : covers (Coins.sub bal fc) m.amount = false := by simpa using hc2
+      simp only [hc2', Bool.not_false, if_true, Except.error.injEq] at h
+      subst h
+      intro hh; exact hc2 (hF.1 hh).2
+    simp only [hc2, Bool.not_true, Bool.false_eq_true, if_false, reduceCtorEq] at h
+
+/-- what a refusal class says about a user fill of bids at the market's gate -/
+def FillBidsRefusalReason (mk : Option Market) (attrs : List String) (cfee sflat : Option Coin) : Rej → Prop
+  | .invalid => fillBidsValid cfee sflat = false
+  | .market => mk = none
+  | .closed => ∃ mkt, mk = some mkt ∧ mkt.acceptingOrders = false
+  | .usersettle => ∃ mkt, mk = some mkt ∧ mkt.acceptingOrders = true ∧ mkt.userSettle = false
+  | .attr => ∃ mkt, mk = some mkt ∧ ¬ AttrsOk mkt.reqAsk attrs
+  | .fee => ∃ mkt, mk = some mkt ∧ ¬ (FlatFeeOk mkt.createAskFlat cfee ∧ FlatFeeOk mkt.sellerFlat sflat)
+  | .price => False
+  | .funds => False
+  | .overflow => False
+
+/-- **Every refusal at the gate of a user fill of bids names a condition that fails**; the
+gate never panics (no guard needed). -/
+theorem fillBidsGate_refusal_reason {mk : Option Market} {attrs : List String} {cfee sflat : Option Coin}
+    (hw : ∀ mkt, mk = some mkt → (mkt.createAskFlat.map (·.1)).Nodup ∧ (mkt.sellerFlat.map (·.1)).Nodup)
+    (hn : ∀ mkt, mk = some mkt → PairsOk mkt.reqAsk attrs) {e : Rej}
+    (h : fillBidsGate mk attrs cfee sflat = .error e) : FillBidsRefusalReason mk attrs cfee sflat e := by
+  unfold fillBidsGate validateAcceptingOrdersAndCanUserSettle validateMarketIsAcceptingOrders at h
+  by_cases hv : fillBidsValid cfee sflat = true
+  swap
+  · have hv' : fillBidsValid cfee sflat = false := by simpa using hv
+    simp only [hv', Bool.not_false, if_true, Except.error.injEq] at h
+    subst h; exact hv'
+  simp only [hv, Bool.not_true, Bool.false_eq_true, if_false] at h
+  cases mk with
+  | none =>
+    simp only [Except.error.injEq] at h
+    subst h; rfl
+  | some mkt =>
+    obtain ⟨hn1, hn2⟩ := hw mkt rfl
+    simp only at h
+    by_cases hacc : mkt.acceptingOrders = true
+    swap
+    · have hacc' : mkt.acceptingOrders = false := by simpa using hacc
+      simp only [hacc', Bool.false_eq_true, if_false, Except.error.injEq] at h
+      subst h; exact ⟨mkt, rfl, hacc'⟩
+    simp only [hacc, if_true] at h
+    by_cases hus : mkt.userSettle = true
+    swap
+    · have hus' : mkt.userSettle = false := by simpa using hus
+      simp only [hus', Bool.false_eq_true, if_false, Except.error.injEq] at h
+      subst h; exact ⟨mkt, rfl, hacc, hus'⟩
+    simp only [hus, if_true] at h
+    by_cases hat : acctHasReqAttrs mkt.reqAsk attrs = true
+    swap
+    · have hat' : acctHasReqAttrs mkt.reqAsk attrs = false := by simpa using hat
+      simp only [hat', Bool.not_false, if_true, Except.error.injEq] at h
+      subst h; exact ⟨mkt, rfl, (acctHasReqAttrs_iff (hn mkt rfl)).not.1 hat⟩
+    simp only [hat, Bool.not_true, Bool.false_eq_true, if_false] at h
+    have h1 := flatFee_accepts_iff_spec hn1 cfee
+    have h2 := flatFee_accepts_iff_spec hn2 sflat
+    unfold validateCreateAskFees at h
+    rcases flatFee_refusal_is_fee mkt.createAskFlat cfee with a | a
+    swap
+    · simp only [a, Except.error.injEq] at h
+      subst h
+      refine ⟨mkt, rfl, fun hh => ?_⟩
+      rw [h1.2 hh.1] at a; cases a
+    rcases flatFee_refusal_is_fee mkt.sellerFlat sflat with b | b
+    swap
+    · simp only [a, b, Except.error.injEq] at h
+      subst h
+      refine ⟨mkt, rfl, fun hh => ?_⟩
+      rw [h2.2 hh.2] at b; cases b
+    simp only [a, b, reduceCtorEq] at h
+
+/-- what a refusal class says about a user fill of asks at the market's gate -/
+def FillAsksRefusalReason (mk : Option Market) (attrs : List String) (cfee : Option Coin)
+    (tp : Coin) (fees : List Coin) : Rej → Prop
+  | .invalid => fillAsksValid cfee tp fees = false
+  | .market => mk = none
+  | .closed => ∃ mkt, mk = some mkt ∧ mkt.acceptingOrders = false
+  | .usersettle => ∃ mkt, mk = some mkt ∧ mkt.acceptingOrders = true ∧ mkt.userSettle = false
+  | .attr => ∃ mkt, mk = some mkt ∧ ¬ AttrsOk mkt.reqBid attrs
+  | .fee => ∃ mkt, mk = some mkt ∧
+      ¬ (FlatFeeOk mkt.createBidFlat cfee ∧ BuyerFeeOk mkt.buyerFlat mkt.buyerRatios tp fees)
+  | .price => False
+  | .funds => False
+  | .overflow => False
+
+/-- **Every refusal at the gate of a user fill of asks names a condition that fails**; inside
+the guards the gate never panics. -/
+theorem fillAsksGate_refusal_reason {mk : Option Market} {attrs : List String} {cfee : Option Coin}
+    {tp : Coin} {fees : List Coin}
+    (hw : ∀ mkt, mk = some mkt → MarketBidWf mkt tp)
+    (hn : ∀ mkt, mk = some mkt → PairsOk mkt.reqBid attrs) {e : Rej}
+    (h : fillAsksGate mk attrs cfee tp fees = .error e) :
+    FillAsksRefusalReason mk attrs cfee tp fees e := by
+  unfold fillAsksGate validateAcceptingOrdersAndCanUserSettle validateMarketIsAcceptingOrders at h
+  by_cases hv : fillAsksValid cfee tp fees = true
+  swap
+  · have hv' : fillAsksValid cfee tp fees = false := by simpa using hv
+    simp only [hv', Bool.not_false, if_true, Except.error.injEq] at h
+    subst h; exact hv'
+  simp only [hv, Bool.not_true, Bool.false_eq_true, if_false] at h
+  have hfees : (fees.map (·.1)).Nodup := by
+    unfold fillAsksValid at hv
+    simp only [Bool.and_eq_true] at hv
+    exact coinsValid_nodup hv.2
+  cases mk with
+  | none =>
+    simp only [Except.error.injEq] at h
+    subst h; rfl
+  | some mkt =>
+    have hmw := hw mkt rfl
+    simp only at h
+    by_cases hacc : mkt.acceptingOrders = true
+    swap
+    · have hacc' : mkt.acceptingOrders = false := by simpa using hacc
+      simp only [hacc', Bool.false_eq_true, if_false, Except.error.injEq] at h
+      subst h; exact ⟨mkt, rfl, hacc'⟩
+    simp only [hacc, if_true] at h
+    by_cases hus : mkt.userSettle = true
+    swap
+    · have hus' : mkt.userSettle = false := by simpa using hus
+      simp only [hus', Bool.false_eq_true, if_false, Except.error.injEq] at h
+      subst h; exact ⟨mkt, rfl, hacc, hus'⟩
+    simp only [hus, if_true] at h
+    by_cases hat : acctHasReqAttrs mkt.reqBid attrs = true
+    swap
+    · have hat' : acctHasReqAttrs mkt.reqBid attrs = false := by simpa using hat
+      simp only [hat', Bool.not_false, if_true, Except.error.injEq] at h
+      subst h; exact ⟨mkt, rfl, (acctHasReqAttrs_iff (hn mkt rfl)).not.1 hat⟩
+    simp only [hat, Bool.not_true, Bool.false_eq_true, if_false] at h
+    have h1 := flatFee_accepts_iff_spec hmw.hcflat cfee
+    have h2 := buyerFee_accepts_iff_spec hmw.hbuyer hfees
+    unfold validateCreateBidFees at h
+    rcases flatFee_refusal_is_fee mkt.createBidFlat cfee with a | a
+    swap
+    · simp only [a, Except.error.injEq] at h
+      subst h
+      refine ⟨mkt, rfl, fun hh => ?_⟩
+      rw [h1.2 hh.1] at a; cases a
+    rcases buyerFee_no_panic hmw.hbuyer fees with b | b
+    swap
+    · simp only [a, b, Except.error.injEq] at h
+      subst h
+      refine ⟨mkt, rfl, fun hh => ?_⟩
+      rw [h2.2 hh.2] at b; cases b
+    simp only [a, b, reduceCtorEq] at h
+
+/-- **No admission panics inside the guards**: none of the five message-level admissions
+returns the overflow class when the stored market is well formed for the message. -/
+theorem admissions_no_panic {mk : Option Market} {attrs : List String} {bal : Coins} :
+    (∀ m : AskMsg, (∀ mkt, mk = some mkt → MarketAskWf mkt m) → (∀ mkt, mk = some mkt → PairsOk mkt.reqAsk attrs) →
+      createAsk mk attrs bal m ≠ .error .overflow) ∧
+    (∀ m : BidMsg, (∀ mkt, mk = some mkt → MarketBidWf mkt m.price) → (∀ mkt, mk = some mkt → PairsOk mkt.reqBid attrs) →
+      createBid mk attrs bal m ≠ .error .overflow) ∧
+    (∀ cfee sflat, (∀ mkt, mk = some mkt → (mkt.createAskFlat.map (·.1)).Nodup ∧ (mkt.sellerFlat.map (·.1)).Nodup) →
+      (∀ mkt, mk = some mkt → PairsOk mkt.reqAsk attrs) →
+      fillBidsGate mk attrs cfee sflat ≠ .error .overflow) ∧
+    (∀ cfee tp fees, (∀ mkt, mk = some mkt → MarketBidWf mkt tp) → (∀ mkt, mk = some mkt → PairsOk mkt.reqBid attrs) →
+      fillAsksGate mk attrs cfee tp fees ≠ .error .overflow) :=
+  ⟨fun _ hw hn h => createAsk_refusal_reason hw hn h, fun _ hw hn h => createBid_refusal_reason hw hn h,
+   fun _ _ hw hn h => fillBidsGate_refusal_reason hw hn h,
+   fun _ _ _ hw hn h => fillAsksGate_refusal_reason hw hn h⟩
+
+/-- `CommitFunds` never panics, whatever is stored under the id. -/
+theorem commitFunds_no_panic (s : MStore) (attrs : List String) (bal : Coins) (m : CommitMsg) :
+    commitFunds s attrs bal m ≠ .error .overflow := by
+  intro h
+  rw [commitFunds_eq] at h
+  unfold validateMarketIsAcceptingCommitments at h
+  rcases flatFee_refusal_is_fee s.m.createCommitFlat m.cfee with a | a <;> simp only [a] at h
+  · cases hv : s.view with
+    | none => simp only [hv] at h; split_ifs at h <;> cases h
+    | some mk =>
+      simp only [hv] at h
+      cases hmv : m.valid <;> cases hm : mk.acceptingCommitments <;> cases hA : acctHasReqAttrs mk.reqCommit attrs <;>
+        cases hc1 : covers bal (feeCoinsOf m.cfee) <;>
+        cases hc2 : covers (Coins.sub bal (feeCoinsOf m.cfee)) m.amount <;>
+        simp [hmv, hm, hA, hc1, hc2] at h
+  · split_ifs at h <;> cases h
 
 /-! ### Paying more never hurts; a larger price stays coverable -/
 
@@ -954,19 +1426,37 @@ theorem askPrice_ok_for_larger_price {rs : List Ratio} {price : Coin} {flat : Op
 /-! ### Required attributes are the ones the market asked for (after name normalisation) -/
 
 /-- **The stored required attributes are the requested ones, normalised — for asks, bids and
-commitments**: "carries every attribute the market requires" is about normalised names on
-both sides, whatever spelling the market was created with. -/
-theorem reqattrs_normalised (requested : Market) (attrs : List String) :
-    (AttrsOk (storeMarket requested).reqAsk attrs ↔ AttrsOkNorm requested.reqAsk attrs) ∧
-    (AttrsOk (storeMarket requested).reqBid attrs ↔ AttrsOkNorm requested.reqBid attrs) ∧
-    (AttrsOk (storeMarket requested).reqCommit attrs ↔ AttrsOkNorm requested.reqCommit attrs) :=
-  ⟨Iff.rfl, Iff.rfl, Iff.rfl⟩
+commitments**: on a market created from `requested`, the account may act ⇔ every attribute
+the market asked for, normalised like every name on chain, has a documented match among the
+account's attributes — whatever spelling the market was created with. -/
+theorem reqattrs_normalised (requested : Market) {attrs : List String} (ha : ∀ a ∈ attrs, NameOk a)
+    (hr : ∀ r ∈ requested.reqAsk ++ requested.reqBid ++ requested.reqCommit, ReqOk (normalizeName r)) :
+    (acctHasReqAttrs (storeMarket requested).reqAsk attrs = true ↔
+      ∀ r ∈ requested.reqAsk, ∃ a ∈ attrs, DocMatch (normalizeName r) a) ∧
+    (acctHasReqAttrs (storeMarket requested).reqBid attrs = true ↔
+      ∀ r ∈ requested.reqBid, ∃ a ∈ attrs, DocMatch (normalizeName r) a) ∧
+    (acctHasReqAttrs (storeMarket requested).reqCommit attrs = true ↔
+      ∀ r ∈ requested.reqCommit, ∃ a ∈ attrs, DocMatch (normalizeName r) a) := by
+  refine ⟨acctHasReqAttrs_normalised_iff (fun r h => hr r ?_) ha,
+    acctHasReqAttrs_normalised_iff (fun r h => hr r ?_) ha,
+    acctHasReqAttrs_normalised_iff (fun r h => hr r ?_) ha⟩ <;> simp [h]
 
 /-- kept under its first name: the ask and bid part -/
-theorem ask_bid_reqattrs_normalised (requested : Market) (attrs : List String) :
-    (AttrsOk (storeMarket requested).reqAsk attrs ↔ AttrsOkNorm requested.reqAsk attrs) ∧
-    (AttrsOk (storeMarket requested).reqBid attrs ↔ AttrsOkNorm requested.reqBid attrs) :=
-  ⟨Iff.rfl, Iff.rfl⟩
+theorem ask_bid_reqattrs_normalised (requested : Market) {attrs : List String} (ha : ∀ a ∈ attrs, NameOk a)
+    (hr : ∀ r ∈ requested.reqAsk ++ requested.reqBid ++ requested.reqCommit, ReqOk (normalizeName r)) :
+    (acctHasReqAttrs (storeMarket requested).reqAsk attrs = true ↔
+      ∀ r ∈ requested.reqAsk, ∃ a ∈ attrs, DocMatch (normalizeName r) a) ∧
+    (acctHasReqAttrs (storeMarket requested).reqBid attrs = true ↔
+      ∀ r ∈ requested.reqBid, ∃ a ∈ attrs, DocMatch (normalizeName r) a) :=
+  ⟨(reqattrs_normalised requested ha hr).1, (reqattrs_normalised requested ha hr).2.1⟩
+
+/-- What `CreateMarket` stores is a fixed point of the normalisation: normalising the stored
+lists again (as `UpdateReqAttrs` does with every name it compares them to) changes nothing. -/
+theorem storeMarket_reqattrs_fixed (requested : Market) :
+    (storeMarket requested).reqAsk.map normalizeName = (storeMarket requested).reqAsk ∧
+    (storeMarket requested).reqBid.map normalizeName = (storeMarket requested).reqBid ∧
+    (storeMarket requested).reqCommit.map normalizeName = (storeMarket requested).reqCommit := by
+  simp [storeMarket, List.map_map, Function.comp_def, normalizeName_idempotent]
 
 /-- Everything else `CreateMarket` writes is what was requested. -/
 theorem storeMarket_keeps_fees_and_flags (m : Market) :
@@ -983,12 +1473,13 @@ commitment is accepted ⇔ valid, the market accepts commitments, the account ca
 requested create-commitment attribute (normalised), the creation fee covers an option, and
 the funds are there. -/
 theorem commitFunds_requested_iff {requested : Market} {attrs : List String} {bal : Coins}
-    {m : CommitMsg} (hw : (requested.createCommitFlat.map (·.1)).Nodup) :
+    {m : CommitMsg} (hw : (requested.createCommitFlat.map (·.1)).Nodup)
+    (hn : PairsOk (requested.reqCommit.map normalizeName) attrs) :
     commitFunds ⟨true, storeMarket requested⟩ attrs bal m = .ok () ↔
       m.valid = true ∧ requested.acceptingCommitments = true ∧
       AttrsOkNorm requested.reqCommit attrs ∧ FlatFeeOk requested.createCommitFlat m.cfee ∧
       FundsOk bal m.cfee m.amount := by
-  rw [commitFunds_admits_iff (s := ⟨true, storeMarket requested⟩) (fun _ => hw)]
+  rw [commitFunds_admits_iff (s := ⟨true, storeMarket requested⟩) (fun _ => hw) (fun _ => hn)]
   unfold CommitAdmissible MStore.view
   simp only [if_true, Option.some.injEq, exists_eq_left']
   constructor
@@ -1052,7 +1543,7 @@ theorem unknown_id_admits_nothing {s : MStore} (hk : s.known = false) (attrs : L
   · intro m; rw [hv]; unfold createBid validateMarketIsAcceptingOrders; split_ifs <;> simp
   · intro m h
     have := (commitFunds_admits_iff (s := s) (attrs := attrs) (bal := bal) (m := m)
-      (fun h' => by rw [hk] at h'; cases h')).1 h
+      (fun h' => by rw [hk] at h'; cases h') (fun h' => by rw [hk] at h'; cases h')).1 h
     obtain ⟨_, ⟨mkt, hm, _⟩, _⟩ := this
     rw [hv] at hm; cases hm
   · intro cfee sflat; rw [hv]
@@ -1089,41 +1580,45 @@ theorem configInForce_keys_nodup {h : History}
 the configuration in force accepts commitments, names no attribute the account lacks, and has
 a creation-fee option the offer covers (or none), and the funds are there. -/
 theorem commitFunds_history_iff {h : History} {attrs : List String} {bal : Coins} {m : CommitMsg}
-    (hw : ∀ rq, h.requested = some rq → KeysNodup rq) :
+    (hw : ∀ rq, h.requested = some rq → KeysNodup rq)
+    (hn : ∀ c, h.configInForce = some c → PairsOk c.reqCommit attrs) :
     commitFunds h.run attrs bal m = .ok () ↔
       m.valid = true ∧ CommitAdmissible h.configInForce attrs m ∧ FundsOk bal m.cfee m.amount := by
   rw [← history_view_eq_configInForce]
-  apply commitFunds_admits_iff
-  intro hk
-  have hv : h.run.view = some h.run.m := by unfold MStore.view; simp [hk]
-  rw [history_view_eq_configInForce] at hv
-  exact (configInForce_keys_nodup hw _ hv).flats .commit
+  have hv : h.run.known = true → h.configInForce = some h.run.m := by
+    intro hk
+    rw [← history_view_eq_configInForce]; unfold MStore.view; simp [hk]
+  exact commitFunds_admits_iff (fun hk => (configInForce_keys_nodup hw _ (hv hk)).flats .commit)
+    (fun hk => hn _ (hv hk))
 
 /-- **Create ask, for every history** (hypothesis: the configuration in force is well formed
 for the message, as in `createAsk_admits_iff`). -/
 theorem createAsk_history_iff {h : History} {attrs : List String} {bal : Coins} {m : AskMsg}
-    (hw : ∀ c, h.configInForce = some c → MarketAskWf c m) :
+    (hw : ∀ c, h.configInForce = some c → MarketAskWf c m)
+    (hn : ∀ c, h.configInForce = some c → PairsOk c.reqAsk attrs) :
     createAsk h.run.view attrs bal m = .ok () ↔
       m.valid = true ∧ AskAdmissible h.configInForce attrs m ∧ FundsOk bal m.cfee m.holdAmount := by
   rw [history_view_eq_configInForce]
-  exact createAsk_admits_iff hw
+  exact createAsk_admits_iff hw hn
 
 /-- **Create bid, for every history.** -/
 theorem createBid_history_iff {h : History} {attrs : List String} {bal : Coins} {m : BidMsg}
-    (hw : ∀ c, h.configInForce = some c → MarketBidWf c m.price) :
+    (hw : ∀ c, h.configInForce = some c → MarketBidWf c m.price)
+    (hn : ∀ c, h.configInForce = some c → PairsOk c.reqBid attrs) :
     createBid h.run.view attrs bal m = .ok () ↔
       m.valid = true ∧ BidAdmissible h.configInForce attrs m ∧ FundsOk bal m.cfee m.holdAmount := by
   rw [history_view_eq_configInForce]
-  exact createBid_admits_iff hw
+  exact createBid_admits_iff hw hn
 
 /-- **User fill of bids, for every history** (no hypothesis beyond the requested market
 being a map). -/
 theorem fillBidsGate_history_iff {h : History} {attrs : List String} {cfee sflat : Option Coin}
-    (hw : ∀ rq, h.requested = some rq → KeysNodup rq) :
+    (hw : ∀ rq, h.requested = some rq → KeysNodup rq)
+    (hn : ∀ c, h.configInForce = some c → PairsOk c.reqAsk attrs) :
     fillBidsGate h.run.view attrs cfee sflat = .ok () ↔
       fillBidsValid cfee sflat = true ∧ FillBidsAdmissible h.configInForce attrs cfee sflat := by
   rw [history_view_eq_configInForce]
-  apply fillBidsGate_iff
+  refine fillBidsGate_iff ?_ hn
   intro c hc
   have := configInForce_keys_nodup hw c hc
   exact ⟨this.flats .ask, this.flats .seller⟩
@@ -1131,11 +1626,12 @@ theorem fillBidsGate_history_iff {h : History} {attrs : List String} {cfee sflat
 /-- **User fill of asks, for every history.** -/
 theorem fillAsksGate_history_iff {h : History} {attrs : List String} {cfee : Option Coin}
     {tp : Coin} {fees : List Coin}
-    (hw : ∀ c, h.configInForce = some c → MarketBidWf c tp) :
+    (hw : ∀ c, h.configInForce = some c → MarketBidWf c tp)
+    (hn : ∀ c, h.configInForce = some c → PairsOk c.reqBid attrs) :
     fillAsksGate h.run.view attrs cfee tp fees = .ok () ↔
       fillAsksValid cfee tp fees = true ∧ FillAsksAdmissible h.configInForce attrs cfee tp fees := by
   rw [history_view_eq_configInForce]
-  exact fillAsksGate_iff hw
+  exact fillAsksGate_iff hw hn
 
 /-- **After MsgGovCloseMarket nothing is admitted** (until a later message reopens the
 market): a history whose last message is the closing one admits no order and no commitment. -/
@@ -1218,9 +1714,30 @@ example : SegsOk ["kyc".toList, "pb".toList] := by
   unfold SegsOk; decide
 example : WildcardMatch ["kyc".toList, "pb".toList] ["us".toList, "kyc".toList, "pb".toList] :=
   ⟨["us".toList], by decide, by decide⟩
+example : ReqOk "*.kyc.pb" ∧ ReqOk (normalizeName "*. KYC.Pb ") ∧ NameOk "us.kyc.pb" := by decide
+example : NamesOk ["*.kyc.pb", "aml.gov"] ["us.kyc.pb", "aml.gov"] := by decide
+example : PairsOk ["*.kyc.pb", "aml.gov"] ["us.kyc.pb", "aml.gov"] := by decide
+example : docUnmatched ["zz", "*.kyc.pb", "aml.gov", "zz"] ["us.kyc.pb"] = ["zz", "aml.gov", "zz"] := by decide
+example : DocMatch "*.kyc.pb" "us.kyc.pb" ∧ ¬ DocMatch "*.kyc.pb" "kyc.pb" ∧
+    ¬ DocMatch "*.kyc.pb" "us.evilkyc.pb" ∧ DocMatch "aml.gov" "aml.gov" := by decide
+example : AttrsOk ["*.kyc.pb", "aml.gov"] ["us.kyc.pb", "aml.gov"] := by decide
+example : normalizeName " Kyc .PB" = "kyc.pb" := by decide
 example : isReqAttrMatch "*.kyc.pb" "us.kyc.pb" = true := by decide
 example : isReqAttrMatch "*.kyc.pb" "kyc.pb" = false := by decide
 example : isReqAttrMatch "*.kyc.pb" "us.evilkyc.pb" = false := by decide
+
+-- refusal reasons: a bid without the creation fee the market asks is refused as "fee", a
+-- commitment on an id that is not a market as "market", a fill on a market without user
+-- settlement as "usersettle" (hypotheses of the `*_refusal_reason` theorems on these instances)
+example : MarketBidWf { createBidFlat := [("aaa", 5)] } ("usd", 5) :=
+  ⟨by decide, ⟨⟨by decide, by decide⟩, ⟨by decide, by decide⟩, by decide, by decide, by decide⟩⟩
+example : createBid (some { createBidFlat := [("aaa", 5)] }) [] [("usd", 10)]
+    { marketId := 1, assets := ("apple", 1), price := ("usd", 5), fees := [], cfee := none } = .error .fee := by rfl
+example : commitFunds { known := false, m := { acceptingCommitments := true } } [] [("usd", 10)]
+    { marketId := 1, amount := [("usd", 5)], cfee := none } = .error .market := by rfl
+example : fillBidsGate (some { userSettle := false }) [] none none = .error .usersettle := by rfl
+example : fillAsksGate (some { userSettle := true, reqBid := ["kyc.pb"] }) ["aml.gov"] none ("usd", 5) []
+    = .error .attr := by rfl
 
 /-- a history with residue: before the market exists the authority switches commitments on,
 writes a create-commitment fee option and a required attribute under its id; the market is then
